@@ -67,8 +67,32 @@ def flag_value(pc_, b):
     return None
 
 
-def install_debug_sink(I):
+class _GimliReached(Exception):
+    pass
+
+
+def install_debug_sink(I, ctx=None):
     def m_dbg(I, st, c, args, cont, depth, site):
+        # probe: the REAL ModuleDebugData::emit is interpreted on a fork up to its first call into gimli; if it returns
+        # before getting there, the DWARF conversion was skipped although it was requested
+        if ctx is not None:
+            real = ctx.fn(r'^debug::<impl at src/module/debug/mod\.rs:\d+:\d+: \d+:\d+>::emit$')
+
+            def reached(I_, st_, c_, args_, cont_, depth_, site_):
+                raise _GimliReached()
+            ent = (re.compile(r'gimli::|::borrow::<|EndianSlice'), reached, 'first call into gimli = end of the probed prefix of ModuleDebugData::emit')
+            I.models.insert(0, ent)
+            returned = []
+            try:
+                I.run(real, list(args), st.fork(), lambda s_, v_: returned.append(v_))
+            except _GimliReached:
+                I.models_used[ent[2]] = I.models_used.get(ent[2], 0) + 1 if hasattr(I, 'models_used') else 1
+            except Inconclusive:
+                returned = ['?']
+            finally:
+                I.models.remove(ent)
+            if returned and returned[0] != '?':
+                I.event(st, 'debug.emit.returned-before-gimli')
         I.event(st, 'debug.emit', I.deref(st, args[0]))
         cont(st, unit())
     I.add_model(r'ModuleDebugData as (emit::)?Emit>::emit$', m_dbg, 'ModuleDebugData::emit = recorded (gimli is not encoded)', front=True)
@@ -78,7 +102,7 @@ def run_flags(ctx, report, name, spec, timeout_ms):
     ob = common.Obligation('O14.1:' + name, 'name section iff generate_name_section, producers section iff generate_producers_section, debug emission iff generate_dwarf, code transform handed to custom sections iff preserve_code_transform; .debug* sections never leave through the raw custom-section loop; nothing else changes across the 16 flag assignments')
     try:
         I, P = pc.new_pipeline(ctx)
-        install_debug_sink(I)
+        install_debug_sink(I, ctx)
         st = engine.State()
         f_name, f_prod, f_dwarf, f_pres = z3.Bool('skip_name_section'), z3.Bool('skip_producers_section'), z3.Bool('generate_dwarf'), z3.Bool('preserve_code_transform')
         cfg = P.default_config(st, skip_name_section=f_name, skip_producers_section=f_prod, generate_dwarf=f_dwarf, preserve_code_transform=f_pres)
@@ -108,6 +132,8 @@ def run_flags(ctx, report, name, spec, timeout_ms):
                 if vals['skip_prod'] is not None and has_prod != (not vals['skip_prod']):
                     vios.append(dict(key='flag.producers', what='[%s] skip_producers_section=%s but producers section present=%s' % (name, vals['skip_prod'], has_prod), **extra))
                 dbg = [e for e in s2.events if e[0] == 'debug.emit']
+                if any(e[0] == 'debug.emit.returned-before-gimli' for e in s2.events):
+                    vios.append(dict(key='flag.dwarf.skipped', what='[%s] generate_dwarf is on and the module carries .debug sections, but ModuleDebugData::emit returns before converting anything' % name, **extra))
                 if vals['dwarf'] is not None and bool(dbg) != vals['dwarf']:
                     vios.append(dict(key='flag.dwarf', what='[%s] generate_dwarf=%s but debug emission happened %d times' % (name, vals['dwarf'], len(dbg)), **extra))
                 ct = [e for e in s2.events if e[0] == 'probe.code_transform']
@@ -312,7 +338,18 @@ def run(tier, seed, only=None):
             run_on_parse(ctx, report, timeout_ms)
         else:
             run_setters(ctx, report)
-    items = [('flags', 'flags', base_spec('older-walrus'))]
+    def no_code_spec():
+        sp = Spec()
+        sp.types = [([], [])]
+        sp.imports = [dict(module=S('e'), name=S('f'), kind='func', type=0)]
+        sp.memories = [scen.mem('m', m64=False, shared=False)]
+        sp.exports = [dict(name=S('f'), kind='Func', index=u32(0)), dict(name=S('m'), kind='Memory', index=u32(0))]
+        sp.func_tags = []
+        sp.names = {'module': S('modname'), 'functions': {0: S('n_imp')}}
+        sp.producers = base_spec('older-walrus').producers
+        sp.customs = [dict(name=S('keepme'), data=Opaque('bytes:k0'), place='end'), dict(name=S('.debug_info'), data=Opaque('bytes:dbg0'), place='end'), dict(name=S('.debug_abbrev'), data=Opaque('bytes:dbg1'), place='end')]
+        return sp
+    items = [('flags', 'flags', base_spec('older-walrus')), ('flags', 'flags@no-local-functions', no_code_spec())]
     items += [('flags', 'flags@' + n, decorate(sp, k)) for k, (n, sp) in enumerate(gl)]
     items += [('producers', kind, None) for kind in ('older-walrus', 'same-walrus', 'foreign-only', 'none')]
     items += [('on_parse', 'on_parse', None), ('setters', 'setters', None)]
